@@ -162,6 +162,8 @@ package keeper
 
 //@ func (Keeper).ValidateEditStake
 //@   props C23,C12
+//@   modifies bigv
+//@   ensures [bigv-kept] forall p int {bigv[p]} :: isold(p) ==> bigv[p] == old(bigv[p])
 //@   ensures [no-decrease] result == nil ==> old(bigv[amount.i]) >= old(bigv[currentValidator.StakedTokens.i])
 //@   ensures [output-editor] result == nil && (featAt("NCUST", ctxHeight(ctx)) || tm3()) && (featAt("OEDIT", ctxHeight(ctx)) || tm3()) ==> currentValidator.OutputAddress == nil || addrEq(bytes(signer), bytes(currentValidator.OutputAddress)) || addrEq(bytes(newValidtor.OutputAddress), bytes(currentValidator.OutputAddress))
 //@   ensures [output-fixed] result == nil && (featAt("NCUST", ctxHeight(ctx)) || tm3()) && !(featAt("OEDIT", ctxHeight(ctx)) || tm3()) ==> currentValidator.OutputAddress == nil || addrEq(bytes(newValidtor.OutputAddress), bytes(currentValidator.OutputAddress))
@@ -282,6 +284,7 @@ package keeper
 // begin-unstake: only a staked node (jailed nodes only after the non-custodial upgrade)
 //@ func (Keeper).ValidateValidatorBeginUnstaking
 //@   props C24,C12
+//@   modifies nothing
 //@   ensures [staked] result == nil ==> validator.Status == 2
 //@   ensures [jailed-only-after-upgrade] result == nil && validator.Jailed ==> featAt("NCUST", ctxHeight(ctx)) || tm3()
 // a request only marks the node as waiting: nothing else changes until the session boundary
@@ -303,6 +306,7 @@ package keeper
 //@   ensures [due-time-kept] !timeIsZero(validator.UnstakingCompletionTime) ==> lastSetVal.UnstakingCompletionTime == validator.UnstakingCompletionTime
 //@ func (Keeper).ValidateValidatorFinishUnstaking
 //@   props C24,C12
+//@   modifies nothing
 //@   ensures [unstaking] result == nil ==> validator.Status == 1
 //@   ensures [jailed-only-after-upgrade] result == nil && validator.Jailed ==> featAt("NCUST", ctxHeight(ctx)) || tm3()
 
